@@ -51,9 +51,59 @@ def attribute(known_ids, shape_vals, table):
 # --------------------------------------------------------------------------------------
 # parallel execution of the implementation
 # --------------------------------------------------------------------------------------
+# A valid program that DEFINES every name the fault injectors use as "unknown" (struct Nosuch,
+# task nosuch, variable zz, attribute nosuch).  It is validated in the same process right before
+# every case: validation must not remember anything from earlier validations (a leak of struct
+# names / tasks / variables between parse_string calls would make the faulty program pass).
+PRIMER = """Struct Nosuch
+    a: number
+    nosuch: number
+    zz: number
+End
+
+Struct Fnew
+    a: number
+End
+
+Task nosuch
+    In
+        zz: Nosuch
+    Sprimer
+        In
+            zz
+        Out
+            x: Nosuch
+            x1: Nosuch
+            w: Nosuch
+End
+
+Task tnew
+    Sprimer2
+End
+
+Task productionTask
+    Sprimer3
+        Out
+            zz: Nosuch
+            q: Nosuch
+    nosuch
+        In
+            zz
+End
+"""
+
+
 def _impl_pair(text):
+    """one case = a short sequence of validations in one process: the primer, then the text in
+    the console format twice in a row (the repetition must give the same verdict and print the
+    same messages), then in the extension format"""
+    check_core.run_impl(PRIMER, ext=False)
     r1 = check_core.run_impl(text, ext=False)
+    r1b = check_core.run_impl(text, ext=False)
     r2 = check_core.run_impl(text, ext=True)
+    if (r1b["valid"], r1b["exc"], r1b["out"]) != (r1["valid"], r1["exc"], r1["out"]):
+        r1["repeat_diff"] = "second validation of the same text: verdict %s, exception %s, output %r" % (
+            r1b["valid"], r1b["exc"], r1b["out"][:80])
     for r in (r1, r2):
         r.pop("process", None)
     return r1, r2
@@ -131,7 +181,10 @@ def mon_C10(c):
 
 
 def mon_C16(c):
-    """a verdict is returned without raising; valid <-> nothing printed"""
+    """a verdict is returned without raising; valid <-> nothing printed; validating the same text
+    again gives the same verdict and the same output"""
+    if c["impl"].get("repeat_diff"):
+        return c["impl"]["repeat_diff"]
     for r in (c["impl"], c["implx"]):
         if r["exc"] is not None:
             return "exception " + r["exc"]
@@ -247,6 +300,115 @@ def fault_case(seed_str, fault, pos_kind=None, depth=None):
                      "depth": inj["depth"], "seed": seed_str}}
 
 
+CONTAINERS = ["while", "count", "passed", "failed", "called_task", "parallel_task", "parloop_task"]
+INNER = ["service", "call", "parallel", "while", "count", "parloop", "cond"]
+
+
+def nesting_case(container, inner, seed_str):
+    """every statement kind DIRECTLY inside every container kind (and one level deeper for the
+    loop / branch containers): a small valid program that is driven to the end"""
+    rng = random.Random(seed_str)
+    P = faults.P
+    q = ("service", "Sq", [], [("q", faults.FQ)])
+
+    def inner_stmt(k):
+        call = ("call",) + faults.GOOD_CALL
+        if k == "service":
+            return ("service", "Si", [("var", "q")], [])
+        if k == "call":
+            return call
+        if k == "parallel":
+            return ("parallel", [faults.GOOD_CALL, ("fcallee", [("var", "q"), P("q", "count")], [("x2", faults.FIN)])])
+        if k == "while":
+            return ("while", ("bin", "<", P("q", "count"), ("num", 0)), [("service", "Sw", [], [])])
+        if k == "count":
+            return ("count", False, "m", ("int", 2), [("service", "Sc", [], [])])
+        if k == "parloop":
+            return ("count", True, "m", ("path", "q", [("f", "count")]), [call])
+        return ("cond", P("q", "flag"), [("service", "Sp", [], [])], [("service", "Sf", [], [])])
+
+    body = [q, inner_stmt(inner)]
+    if rng.random() < 0.5:
+        body.append(("service", "Safter", [], []))
+    prog = {"structs": [dict(s) for s in faults.SUPPORT_STRUCTS], "tasks": []}
+    host = None
+    if container == "while":
+        host = [("count", False, "o", ("int", 1), [("while", ("bool", False), body)]), ("while", ("bin", "<", ("num", 1), ("num", 0)), body)]
+    elif container == "count":
+        host = [("count", False, "o", ("int", rng.choice([1, 2])), body)]
+    elif container == "passed":
+        host = [("cond", ("bool", True), body, [])]
+    elif container == "failed":
+        host = [("cond", ("bool", False), [("service", "Sk", [], [])], body)]
+    if host is not None:
+        prod = {"name": "productionTask", "ins": [], "body": host, "outs": []}
+        prog["tasks"] = [prod, gen_check.clone(faults.SUPPORT_TASK)]
+    else:
+        tnew = {"name": "tnew", "ins": [], "body": body, "outs": []}
+        if container == "called_task":
+            pb = [("call", "tnew", [], [])]
+        elif container == "parallel_task":
+            pb = [("parallel", [("tnew", [], []), ("tother", [], [])])]
+        else:
+            pb = [("count", True, "z", ("int", 2), [("call", "tnew", [], [])])]
+        prog["tasks"] = [{"name": "productionTask", "ins": [], "body": pb, "outs": []}, tnew,
+                         {"name": "tother", "ins": [], "body": [("service", "So", [], [])], "outs": []},
+                         gen_check.clone(faults.SUPPORT_TASK)]
+    lm = {}
+    text = gen_check.render(prog, None, lm)
+    return {"prog": prog, "text": text, "lm": lm,
+            "meta": {"family": "nesting", "container": container, "inner": inner, "seed": seed_str}}
+
+
+def shared_names_case(seed_str):
+    """well-formed: several tasks use the SAME variable name for values of DIFFERENT struct types
+    whose identically named attribute has different primitive types, and every task uses that
+    path in a guard, a condition or a loop limit"""
+    rng = random.Random(seed_str)
+    P = faults.P
+    NUM, BOOL, STR = ("plain", "number"), ("plain", "boolean"), ("plain", "string")
+    kinds = [("Sa", NUM), ("Sb", BOOL), ("Sc", STR)]
+    rng.shuffle(kinds)
+    attr = rng.choice(["val", "quality", "state"])
+    var = rng.choice(["r", "result", "x"])
+    structs = [{"name": sn, "attrs": [(attr, ty), ("other", NUM)]} for sn, ty in kinds]
+    nested = rng.random() < 0.5
+    if nested:   # the same path spelling two levels deep: r.inner.val
+        structs += [{"name": "W" + sn, "attrs": [("inner", ("plain", sn))]} for sn, _ in kinds]
+
+    def use(sn, ty):
+        path = P(var, "inner", attr) if nested else P(var, attr)
+        decl = ("service", "Sd", [], [(var, ("plain", ("W" + sn) if nested else sn))])
+        if ty == NUM:
+            form = rng.choice(["limit", "cmp", "while"])
+            if form == "limit":
+                return [decl, ("count", False, "k", ("path", path[1], path[2]), [("service", "Sl", [], [])])]
+            if form == "cmp":
+                return [decl, ("cond", ("bin", rng.choice(["<", ">=", "=="]), path, ("num", 3)), [("service", "Sp", [], [])], [])]
+            return [decl, ("while", ("bin", "<", ("bin", "+", path, ("num", 1)), ("num", 0)), [("service", "Sw", [], [])])]
+        if ty == BOOL:
+            form = rng.choice(["bare", "and"])
+            if form == "bare":
+                return [decl, ("cond", path, [("service", "Sp", [], [])], [("service", "Sf", [], [])])]
+            return [decl, ("while", ("bin", "And", ("bool", False), path), [("service", "Sw", [], [])])]
+        return [decl, ("cond", ("bin", rng.choice(["<", ">"]), path, ("str", "m")), [("service", "Sp", [], [])], [])]
+
+    tasks = []
+    names = ["productionTask", "taskB", "taskC"]
+    for (sn, ty), tn in zip(kinds, names):
+        body = use(sn, ty)
+        if tn == "productionTask":
+            body = body + [("call", "taskB", [], []), ("call", "taskC", [], [])]
+        tasks.append({"name": tn, "ins": [], "body": body, "outs": []})
+    prog = {"structs": structs, "tasks": tasks}
+    order = [("struct", i) for i in range(len(structs))] + [("task", i) for i in range(len(tasks))]
+    rng.shuffle(order)
+    prog["order"] = order
+    lm = {}
+    text = gen_check.render(prog, gen_check.rand_layout(rng), lm)
+    return {"prog": prog, "text": text, "lm": lm, "meta": {"family": "wf-shared-names", "seed": seed_str}}
+
+
 def support_case(seed_str):
     """the fault-free host of the mutants: must be certified well-formed and accepted"""
     rng = random.Random(seed_str)
@@ -309,6 +471,9 @@ def corr_check(pid, c, rep, stats):
     if c["diff"]:
         rep.violation(payload(pid, c, "correspondence", c["diff"]))
         return False
+    if c["impl"].get("repeat_diff"):
+        rep.violation(payload(pid, c, "repeat", c["impl"]["repeat_diff"]))
+        return False
     return True
 
 
@@ -324,6 +489,8 @@ def slice_C11(pid, cfg, tier, seed, workdir, rep, stats, findings):
         cases.append(support_case("%d/%s/support/%d" % (seed, pid, i)))
     for i in range(max(12, n // 6)):
         cases.append(wf_outside_guard("%d/%s/out/%d" % (seed, pid, i)))
+    for i in range(max(24, n // 6)):
+        cases.append(shared_names_case("%d/%s/shared/%d" % (seed, pid, i)))
     stats["generated"] += len(cases)
     evaluate(cases, workdir)
     samples = []
@@ -534,8 +701,14 @@ def _fuzz_one(item):
     import contextlib
     import io
     r1 = check_core.run_impl(text, ext=False)
+    r1b = check_core.run_impl(text, ext=False)
     r2 = check_core.run_impl(text, ext=True)
     res = {"kind": kind, "why": None, "valid": r1["valid"], "exc": r1["exc"] or r2["exc"]}
+    # (the wording of ANTLR's syntax messages - the "expecting {...}" set - depends on how warm the
+    # parser's prediction cache is; only the verdict and "printed something" are compared here)
+    if (r1b["valid"], r1b["exc"], r1b["out"] == "") != (r1["valid"], r1["exc"], r1["out"] == ""):
+        res["why"] = "second validation of the same text differs: verdict %s, output %r" % (r1b["valid"], r1b["out"][:60])
+        return res
     for r in (r1, r2):
         if r["exc"] is not None:
             res["why"] = "exception " + r["exc"]
@@ -838,6 +1011,9 @@ def slice_C09(pid, cfg, tier, seed, workdir, rep, stats, findings):
     rs = gen_check.Config(runtime_safe=True)
     cases = [wf_case("%d/%s/wf/%d" % (seed, pid, i), cfg=rs) for i in range(n)]
     cases += [near_valid_case("%d/%s/near/%d" % (seed, pid, i)) for i in range(max(18, n // 3))]
+    for rnd in range(max(1, n // 240)):
+        cases += [nesting_case(co, inn, "%d/%s/nest/%s/%s/%d" % (seed, pid, co, inn, rnd))
+                  for co in CONTAINERS for inn in INNER]
     cases += [fault_case(s, f, pk, d) for s, f, pk, d in fault_plan(pid, tier, seed, max(1, n // 80))]
     stats["generated"] += len(cases)
     evaluate(cases, workdir)
